@@ -252,8 +252,13 @@ def unwrap(v, p):
 
 class Args:
   """namespace of unwrapped argument values handed to contract clauses"""
-  def __init__(self, env, p, old=None):
-    self._env, self._p, self._old = env, p, old
+  def __init__(self, env, p, old=None, entry_store=None):
+    self._env, self._p, self._old, self._entry_store = env, p, old, entry_store
+
+  def at_entry(self, k):
+    """view of array parameter k as it was ON ENTRY (a.k shows the current store, i.e. the post-state of an array the body mutates in place)"""
+    v = self._env[k]
+    return ArrView(self._entry_store[v.loc], v.loc)
 
   def __getattr__(self, k):
     if k.startswith('_'):
@@ -315,7 +320,7 @@ class Contract:
     case = self.pick_case(env, p, ex)
     if case is None:
       raise Unsupported('no case of contract %s matches the call at line %s' % (self.target, getattr(node, 'lineno', '?')))
-    a = Args(env, p)
+    a = Args(env, p, entry_store=dict(p.store))
     if case.pre is not None:
       pre = case.pre(a)
       p.side.append(('pre', '%s/requires[%s]' % (self.target, case.name), list(p.pc), pre,
@@ -525,6 +530,7 @@ def body_obligations(prog, contract, lib=None, contracts=None, config=None, loop
       continue
     # closure context for nested functions is not available: nested targets are verified through their parent
     entry_heap = {k: dict(v) for k, v in p.heap.items()}
+    entry_store = dict(p.store)
     try:
       outer = getattr(contract, 'outer', None)
       if outer is None:
@@ -556,7 +562,7 @@ def body_obligations(prog, contract, lib=None, contracts=None, config=None, loop
     seen_outcomes = set()
     seen_const = set()
     for k, (q, oc) in enumerate(finished):
-      a = Args(entry_env, q, old=entry_heap)
+      a = Args(entry_env, q, old=entry_heap, entry_store=entry_store)
       tag = '%s[%s]#p%d' % (contract.target, case.name, k)
       # side obligations emitted on the path (callee preconditions, ownership, well-formedness)
       for kind, name, pc, goal, info in q.side:
